@@ -49,6 +49,8 @@ def draw_read_channel(g, ascii_only=True, allow_cr=True, encodable=None, used_ob
             cfg["explicit"] = True
     else:
         cfg["newline"] = g.choice(["\n", "\n", "\r\n"])
+    if ch == "stream" and g.random() < 0.25:
+        cfg["fd_name"] = True
     if used_object_p and g.random() < used_object_p:
         # the LASFile object doing the read has read another file (sections V, W, C, A) before
         cfg["used_object"] = g.choice(sorted(USED_OBJECT_DOCS))
@@ -84,6 +86,8 @@ def read_via(fs, text, cfg, kw=None, lasio_mod=None, tag="r", into=None):
         fs.store_text(path, text, codec=cfg["codec"], newline=nl)
         if ch == "stream":
             fh = fs.open_as_caller(path, "r", encoding=cfg["codec"], newline=None)
+            if cfg.get("fd_name"):
+                fh.buffer.raw.name = 7          # a stream opened from a file descriptor: its .name is an int
             try:
                 return lasio.read(fh, **kw)
             finally:
